@@ -20,7 +20,8 @@ EXTENDS Integers, FiniteSets, TLC
 CONSTANTS Procs,      \* goroutines calling Acquire
           N,          \* capacity (0 is legal)
           MaxCalls,   \* bound on Acquire calls per process (model checking)
-          MaxRel      \* bound on the number of Release calls (model checking)
+          MaxRel,     \* bound on the number of Release calls (model checking)
+          Kinds       \* the kinds of context an Acquire may be called with (subset of AllKinds)
 
 VARIABLES count,      \* occupancy of the channel
           st,         \* st[p] in {"idle", "pending"}: p is inside Acquire
@@ -30,7 +31,32 @@ VARIABLES count,      \* occupancy of the channel
           acq,        \* total number of successful Acquires
           rel         \* total number of Release calls
 
-vars == <<count, st, ctx, calls, res, acq, rel>>
+VARIABLE  kind        \* kind[p]: the kind of context of p's current Acquire
+
+vars == <<count, st, ctx, calls, res, acq, rel, kind>>
+
+(* Context kinds.  What a done context reports is ctx.Err(): context.Canceled  *)
+(* or context.DeadlineExceeded for every context of package context -- also    *)
+(* for those cancelled WITH A CAUSE (WithCancelCause, WithTimeoutCause,        *)
+(* WithDeadlineCause, children of such contexts, contexts decorated with       *)
+(* context.AfterFunc), whose context.Cause(ctx) is the caller-supplied cause   *)
+(* and differs from ctx.Err() -- or whatever a custom Context's Err returns.   *)
+(* C17: Acquire returns the context's ERROR, i.e. ErrOf, never CauseOf where   *)
+(* the two differ.                                                             *)
+(* "timeoutcause" / "deadlinecause" are WithTimeoutCause / WithDeadlineCause   *)
+(* contexts ended through their (cause-cancelled) parent before the deadline;  *)
+(* the ".expired" kinds are the same contexts with the deadline passed, which  *)
+(* is only possible to arrange before the call (ExpiredKinds need ctx = done). *)
+ExpiredKinds == {"timeoutcause.expired", "deadlinecause.expired"}
+AllKinds == {"cancel", "deadline", "sentinel", "cancelcause", "timeoutcause", "deadlinecause",
+             "afterfunc", "nested"} \cup ExpiredKinds
+(* ctx.Err() once the context is done *)
+ErrOf(k) == CASE k \in {"deadline"} \cup ExpiredKinds -> "DeadlineExceeded"
+              [] k = "sentinel" -> "Sentinel"
+              [] OTHER -> "Canceled"
+(* context.Cause(ctx) once the context is done *)
+CauseOf(k) == IF k \in {"cancelcause", "timeoutcause", "deadlinecause", "afterfunc", "nested"} \cup ExpiredKinds
+                THEN "Cause" ELSE ErrOf(k)
 
 Init == /\ count = 0
         /\ st = [p \in Procs |-> "idle"]
@@ -38,16 +64,20 @@ Init == /\ count = 0
         /\ calls = [p \in Procs |-> 0]
         /\ res = [p \in Procs |-> "none"]
         /\ acq = 0 /\ rel = 0
+        /\ kind = [p \in Procs |-> CHOOSE k \in Kinds : TRUE]
 
 (* Acquire(ctx) is invoked with a fresh context that is live or already done. *)
-StartAcquire(p, c) ==
+StartAcquireK(p, c, k) ==
     /\ st[p] = "idle" /\ calls[p] < MaxCalls
     /\ c \in {"live", "done"}
+    /\ k \in ExpiredKinds => c = "done"
+    /\ kind' = [kind EXCEPT ![p] = k]
     /\ st' = [st EXCEPT ![p] = "pending"]
     /\ ctx' = [ctx EXCEPT ![p] = c]
     /\ calls' = [calls EXCEPT ![p] = @ + 1]
     /\ res' = [res EXCEPT ![p] = "none"]
     /\ UNCHANGED <<count, acq, rel>>
+StartAcquire(p, c) == \E k \in Kinds : StartAcquireK(p, c, k)
 
 CanOK(p)     == st[p] = "pending" /\ count < N
 CanCancel(p) == st[p] = "pending" /\ ctx[p] = "done"
@@ -59,14 +89,14 @@ AcquireOK(p) ==
     /\ acq' = acq + 1
     /\ st' = [st EXCEPT ![p] = "idle"]
     /\ res' = [res EXCEPT ![p] = "ok"]
-    /\ UNCHANGED <<ctx, calls, rel>>
+    /\ UNCHANGED <<ctx, calls, rel, kind>>
 
 (* The ctx.Done() case: possible iff the context is done; returns ctx.Err(). *)
 AcquireCancelled(p) ==
     /\ CanCancel(p)
     /\ st' = [st EXCEPT ![p] = "idle"]
     /\ res' = [res EXCEPT ![p] = "err"]
-    /\ UNCHANGED <<count, ctx, calls, acq, rel>>
+    /\ UNCHANGED <<count, ctx, calls, acq, rel, kind>>
 
 (* Release never blocks: a non-blocking receive, a no-op on an empty channel. *)
 ReleaseEffect == count' = IF count > 0 THEN count - 1 ELSE 0
@@ -74,7 +104,7 @@ Release ==
     /\ rel < MaxRel
     /\ ReleaseEffect
     /\ rel' = rel + 1
-    /\ UNCHANGED <<st, ctx, calls, res, acq>>
+    /\ UNCHANGED <<st, ctx, calls, res, acq, kind>>
 
 (* N = 0 only: the receive in Release meets the send of an Acquire that is     *)
 (* blocked in its select; that Acquire returns nil.  (A pending Acquire that   *)
@@ -86,13 +116,13 @@ ReleaseHandoff(p) ==
     /\ res' = [res EXCEPT ![p] = "ok"]
     /\ acq' = acq + 1
     /\ rel' = rel + 1
-    /\ UNCHANGED <<count, ctx, calls>>
+    /\ UNCHANGED <<count, ctx, calls, kind>>
 
 (* The context of a pending Acquire is cancelled / its deadline passes. *)
 Cancel(p) ==
     /\ st[p] = "pending" /\ ctx[p] = "live"
     /\ ctx' = [ctx EXCEPT ![p] = "done"]
-    /\ UNCHANGED <<count, st, calls, res, acq, rel>>
+    /\ UNCHANGED <<count, st, calls, res, acq, rel, kind>>
 
 Internal(p) == AcquireOK(p) \/ AcquireCancelled(p)
 
@@ -108,6 +138,7 @@ FairSpec == Spec /\ \A p \in Procs : WF_vars(Internal(p))
 
 ----------------------------------------------------------------------------
 TypeOK == /\ count \in 0..N
+          /\ \A p \in Procs : kind[p] \in AllKinds
           /\ \A p \in Procs : st[p] \in {"idle", "pending"} /\ ctx[p] \in {"live", "done"}
                               /\ res[p] \in {"none", "ok", "err"} /\ calls[p] \in 0..MaxCalls
 
@@ -128,6 +159,15 @@ ErrOnlyWhenDone == [][\A p \in Procs : (res'[p] = "err" /\ res[p] # "err") => ct
 OkTakesSlot == [][\A p \in Procs : (res'[p] = "ok" /\ res[p] # "ok") =>
                        \/ (count < N /\ count' = count + 1)
                        \/ (N = 0 /\ rel' = rel + 1)]_vars
+
+(* C17: the error Acquire returns is exactly the context's error -- and not    *)
+(* the cancellation cause where the two differ.                                *)
+(* ErrV(p) is the error VALUE of p's last Acquire: ctx.Err() of its context.   *)
+ErrV(p) == IF res[p] = "err" THEN ErrOf(kind[p]) ELSE "none"
+ReturnsCtxErr == \A p \in Procs :
+    res[p] = "err" => /\ ctx[p] = "done"
+                      /\ ErrV(p) \in {"Canceled", "DeadlineExceeded", "Sentinel"}
+                      /\ (CauseOf(kind[p]) = "Cause" => ErrV(p) # CauseOf(kind[p]))
 
 (* A pending Acquire with a live context and no free slot has no enabled step: it blocks. *)
 BlocksWhenFull ==
